@@ -37,8 +37,11 @@ MixedLeaf == Bin("or_d", Un("c", Leaf("pk_k", 1)),
 MixedTrees == {[leaves |-> <<MixedLeaf>>, dl |-> <<0>>]}
               \cup {[leaves |-> Disjoint(<<MixedLeaf, a>>), dl |-> <<1, 1>>] : a \in LP2}
               \cup {[leaves |-> Disjoint(<<a, MixedLeaf>>), dl |-> <<1, 1>>] : a \in LP2}
+\* a deep tree: a right chain of depth 8 over nine key leaves with distinct keys (control blocks of
+\* 33 + 32 * depth bytes cross the 252 / 253 byte length-prefix boundary at depth 7)
+DeepTree == [leaves |-> [q \in 1..9 |-> Un("c", Leaf("pk_k", q))], dl |-> <<1, 2, 3, 4, 5, 6, 7, 8, 8>>]
 Trees ==
-  MixedTrees \cup
+  {DeepTree} \cup MixedTrees \cup
   {[leaves |-> <<>>, dl |-> <<>>]}
   \cup {[leaves |-> <<a>>, dl |-> <<0>>] : a \in LP1}
   \cup Trees0 \cup {[t EXCEPT !.leaves = Disjoint(t.leaves)] : t \in Trees0}
@@ -55,7 +58,8 @@ CaseOf(t, q) ==
   [id |-> q, ctx |-> "tap", ik |-> IK, leaves |-> t.leaves, dl |-> t.dl,
    worlds |-> CHOOSE r \in {WorldsSeq(W) : W \in {SetToSeq(WorldsOfCtx(Union(t), "tap"))}} : TRUE]
 \* key-only outputs of the other types: pkh, wpkh, sh(wpkh) over the same key
-KeyDescs == {[kind |-> k, leaves |-> <<>>, dl |-> <<>>] : k \in {"pkh", "wpkh", "shwpkh"}}
+\* (pkhU: the same key written uncompressed)
+KeyDescs == {[kind |-> k, leaves |-> <<>>, dl |-> <<>>] : k \in {"pkh", "wpkh", "shwpkh", "pkhU"}}
 CasesOf(S) == [q \in 1..Len(S) |-> CaseOf(S[q], q) @@ [kind |-> IF "kind" \in DOMAIN S[q] THEN S[q].kind ELSE "tr"]]
 ASSUME TLCSet(12, CHOOSE r \in {CasesOf(S) : S \in {SetToSeq(Trees) \o SetToSeq(KeyDescs)}} : TRUE)
 CaseSeq == TLCGet(12)
